@@ -497,6 +497,17 @@ Proof.
   intro V. rewrite V. reflexivity.
 Qed.
 
+(** what a mechanism hands to the request context for the response: the
+    www_authenticate handler its challenge naming the configured realm (the
+    default realm when none is configured), the other two nothing *)
+Theorem www_challenge_recorded m cause :
+  hd_upstream (mech_exec m cause) =
+  match m with
+  | MWWW realm => [("WWW-Authenticate"%string, ("Basic realm=" ++ effective_realm realm)%string)]
+  | _ => []
+  end.
+Proof. destruct m as [|code [url|]|realm]; reflexivity. Qed.
+
 (** a www_authenticate handler's answer has the authentication status ... *)
 Theorem www_authenticate_status c o realm cause :
   (valid_code (http_code (ov_authn c) 401) = true ->
